@@ -138,7 +138,7 @@ func (e *Engine) callStatic(st *State, fr *Frame, callee *ssa.Function, env TEnv
 		return
 	}
 	c := e.contractFor(callee)
-	e.logCall(st, callee, args)
+	e.logCall(st, fr, callee, args)
 	if c != nil && e.inlineCall(callee) {
 		c = nil
 	}
